@@ -34,8 +34,18 @@ longer than NAME_MAX or be longer than PATH_MAX as a whole (ENAMETOOLONG after t
 sessions ONE filesystem call that the server makes on a path inside the root (the k-th mkdir / open / rmdir / remove /
 rename / listing, or the k-th of any kind) is refused with a drawn errno (ENOSPC, EACCES, EIO, EROFS, EDQUOT,
 ENAMETOOLONG, EPERM, EBUSY, EMFILE, ENOENT, EEXIST): the audit hook raises the OSError, which aborts the call exactly
-where the system call would have failed.  What the server does next (error reply, clean-up, retry, fallback) is judged
-like everything else: by the paths it touches.
+where the system call would have failed.  When the refused call is a rename the errno may be one of rename(2)'s own (EXDEV, ENOTEMPTY,
+EISDIR).  In 15% of the sessions one or more directories of the tree are OTHER FILE SYSTEMS (a mount point inside the account's
+directory, nested mounts, every first-level directory its own export): every rename / link across such a boundary is refused
+with EXDEV for the whole session.  What the server does next (error reply, clean-up, retry, copy-and-delete fallback, temporary
+names) is judged like everything else: by the paths it touches.
+
+The root itself as an argument.  Every command that takes a path gets, now and then (root_spelling:* probes), an argument that
+resolves to the root itself, written from the current working directory: '/', exactly as many '..' as the working directory is
+deep, a directory entered and left again ('a/b/../..', '/d2/..'), runs of slashes and '.' segments, decorated like the other
+arguments.  It is the boundary value of the path parameter: whatever a command derives from its argument (parent, sibling,
+temporary name beside it, intermediate directories) lies outside the root then - also where the command expected a file, a
+new name or a rename target.
 
 Filesystem audit: one `sys.addaudithook` per process, gated so that it records
 only while code under test runs (open, os.listdir/scandir/mkdir/rmdir/remove/
@@ -118,8 +128,10 @@ COMPONENTS = {
 RULE = ("run = one FTP session (94%): optional pre-login command, login (anonymous or writable user; 15% switch to TYPE A), 1-25 commands from the hostile path grammar "
         "(CWD/CDUP/PWD/SIZE/MDTM/LIST/NLST/RETR/STOR/APPE/DELE/MKD/RMD/RNFR-RNTO with commands in between/working directory removed or renamed under the session/misc), "
         "one closing relative SIZE; the root starts fully populated (70%) or as a chain of empty directories / one file / empty (fresh account), new names may need new "
-        "intermediate directories or exceed NAME_MAX / PATH_MAX, and in 20% of the sessions the k-th filesystem call of a drawn class on a path inside the root is refused "
-        "with a drawn errno (os_refusal:* faults); command stream cut by the tape, data channels connected/refused/fed/drained/closed/timed out by the tape, optional control-connection "
+        "intermediate directories or exceed NAME_MAX / PATH_MAX, every path argument is a spelling of the root itself now and then ('/', as many '..' as the cwd is deep, "
+        "'a/b/../..', '/./' ...), in 20% of the sessions the k-th filesystem call of a drawn class on a path inside the root is refused "
+        "with a drawn errno (os_refusal:* faults; a refused rename may get EXDEV / ENOTEMPTY / EISDIR) and in 15% directories inside the root are other file systems "
+        "(every rename / link across the boundary fails with EXDEV, os_refusal:cross_device); command stream cut by the tape, data channels connected/refused/fed/drained/closed/timed out by the tape, optional control-connection "
         "loss; or (6%) 1-8 direct IFTPShell calls with hostile segment lists (instrumentation, no verdict).  non-trivial = after login at least one path argument tried "
         "to leave the root (climbed above it, named a neighbour through '..' - plain or in a decorated spelling: NUL / backslash / %2e / trailing dot or blank / ';' / "
         "control byte / alternative dot / glob inside or next to the '..', 40% of the escapes - an absolute form or '~') and (the command stream was cut at least once or a data "
@@ -137,10 +149,16 @@ ASSUMPTIONS = [
     "parent references; the oracle does not care how the server reads them (refusal, literal name inside the root): only the audited paths, the outside snapshot and the "
     "channels are judged, exactly as for plain arguments",
     "the root's own directory entry counts as inside the root (the oracle's definition: 'the root or below it'): a session that removes its emptied root ('RMD /' on an "
-    "empty root succeeds on the unchanged tree) has touched nothing outside; only a symbolic link appearing under the root's name is reported by outside-unchanged",
+    "empty root succeeds on the unchanged tree, and a following 'STOR /' then creates a plain file under the root's name) has touched nothing outside; only a symbolic link "
+    "appearing under the root's name is reported by outside-unchanged",
     "an injected refusal (OSError raised by the audit hook for one call on a path inside the root) stands for what the kernel may answer to any such call (disk full, quota, "
     "read-only remount, permissions, I/O error, a concurrent process creating/removing the entry); it is never injected for paths outside the root or for the interpreter's own "
     "file accesses, and the refused call is still logged as an (inside) access.  How the server reports the failure gets no verdict",
+    "directories inside the root that are other file systems are modelled at the same seam: the audit hook refuses every os.rename / os.link whose two names are both inside the "
+    "root but on different file systems with EXDEV (a rename of a directory onto its own descendant gets EXDEV too where the kernel would say EINVAL: both are refusals); "
+    "stat-level differences between file systems (st_dev) are not modelled",
+    "FilePath's temporary-sibling names (os.urandom) are drawn from a per-run counter so that a run replays identically; the scratch volume refuses every audited call after "
+    "FS_CALL_BUDGET of them in one run (a bound like the step cap, never reached on the unchanged tree: fs_call_budget_exhausted_no_verdict stays 0)",
     "the client cannot name the random scratch directory, so absolute filesystem paths of the neighbours are never sent; FTP-absolute forms ('/..', '//', '/~/') are",
 ]
 LEVEL_NOTE = ("Path arguments and command sequences (histories) are sampled by a seeded grammar: input sampling decides which (cwd, pending rename, argument) combinations reach "
@@ -156,7 +174,7 @@ AUDITED = {"open": 1, "os.listdir": 1, "os.scandir": 1, "os.mkdir": 1, "os.rmdir
 
 # ------------------------------------------------------------------ audit seam
 
-_AUD = {"on": False, "log": [], "installed": False, "fault": None, "xdev": None}
+_AUD = {"on": False, "log": [], "installed": False, "fault": None, "xdev": None, "budget": None}
 _CUR = {}
 
 # ---- refusal fault: the kernel refuses ONE filesystem call that the session makes on a path inside the root (disk full, quota, read-only
@@ -171,11 +189,17 @@ REFUSAL_ERRNOS = ["ENOSPC", "EACCES", "EIO", "EROFS", "EDQUOT", "ENAMETOOLONG", 
 # "same" = the errno drawn from REFUSAL_ERRNOS.
 RENAME_ERRNOS = [("same", 5), ("EXDEV", 4), ("ENOTEMPTY", 2), ("EISDIR", 2)]
 REFUSAL_P = 0.2
-# ---- a sub-tree of the root that is another file system (a mount point inside the account's directory: tmpfs, NFS export, bind mount).
-# Unlike the one-shot refusal this is a lasting property of the tree: EVERY rename / hard link whose two names are both inside the root
-# but on different sides of that directory is refused with EXDEV, as the kernel does.
-OTHER_FS_P = 0.12
-OTHER_FS_DIRS = ["a", "a/b", "d2", "sp ace"]
+# ---- sub-trees of the root that are other file systems (mount points inside the account's directory: tmpfs, NFS exports, bind mounts;
+# one directory, nested mounts, or every first-level directory its own export).  Unlike the one-shot refusal this is a lasting property
+# of the tree: EVERY rename / hard link whose two names are both inside the root but on different file systems is refused with EXDEV,
+# as the kernel does.
+OTHER_FS_P = 0.15
+OTHER_FS_LAYOUTS = [["a"], ["a", "d2", "sp ace"], ["a/b"], ["d2"], ["a", "a/b"], ["sp ace"]]
+# ---- bound (not a fault): the scratch volume takes FS_CALL_BUDGET audited calls per run; every later one in the scratch parent is
+# refused with ENOSPC.  A session on the unchanged tree stays far below it (fs_call_budget_exhausted_no_verdict = 0); it keeps a changed
+# tree that starts copying a directory into itself (or any other runaway file-system loop) from eating the run's time - what it
+# touched until then is judged as usual.
+FS_CALL_BUDGET = 3000
 
 
 def _refusal(event, paths):
@@ -207,7 +231,14 @@ def _cross_device(event, paths):
     if x is None or event not in ("os.rename", "os.link") or len(paths) != 2:
         return None
     a, b = M.norm(paths[0]), M.norm(paths[1])
-    if not (M.inside(x["root"], a) and M.inside(x["root"], b)) or M.inside(x["dir"], a) == M.inside(x["dir"], b):
+    if not (M.inside(x["root"], a) and M.inside(x["root"], b)):
+        return None
+
+    def filesystem(p):      # the innermost mount point that holds p; None = the root's own file system
+        held = [d for d in x["dirs"] if M.inside(d, p)]
+        return max(held, key=len) if held else None
+
+    if filesystem(a) == filesystem(b):
         return None
     x["fired"] += 1
     return OSError(errno.EXDEV, os.strerror(errno.EXDEV), paths[0])
@@ -268,6 +299,11 @@ def _hook(event, args):
                 refuse = _refusal(event, paths)
             if refuse is None and _AUD["xdev"] is not None:
                 refuse = _cross_device(event, paths)
+            b = _AUD["budget"]
+            if b is not None and any(M.inside(b["parent"], M.norm(p)) for p in paths):
+                b["left"] -= 1
+                if b["left"] < 0 and refuse is None:
+                    refuse = OSError(errno.ENOSPC, os.strerror(errno.ENOSPC), paths[0])
     except Exception:       # an audit hook must never raise into the code under test ...
         pass
     if refuse is not None:  # ... except for the one injected refusal of a call inside the root
@@ -368,7 +404,10 @@ class Scratch:
         out = {}
         for dirpath, dirnames, filenames in os.walk(self.parent):
             if dirpath == self.parent:
+                # the entry under the root's own name is the root, whatever the session left there (a directory; nothing, after 'RMD /'
+                # on an emptied root; a file, after a following 'STOR /'): see <rootentry> below
                 dirnames[:] = [d for d in dirnames if d != self.rootname]
+                filenames = [f for f in filenames if f != self.rootname]
             dirnames.sort()
             for d in dirnames:
                 p = os.path.join(dirpath, d)
@@ -396,12 +435,15 @@ def _teardown():
     _AUD["on"] = False
     _AUD["fault"] = None
     _AUD["xdev"] = None
+    _AUD["budget"] = None
     del _AUD["log"][:]
     env = _CUR.pop("env", None)
     if env is not None:
         env.destroy()
     if "chunk" in _CUR:
         basic.FileSender.CHUNK_SIZE = _CUR.pop("chunk")
+    if "randomBytes" in _CUR:
+        filepath.randomBytes = _CUR.pop("randomBytes")
     if "home" in _CUR:
         home = _CUR.pop("home")
         if home is None:
@@ -1397,7 +1439,17 @@ def run(sim):
         # a '~' that some layer expanded would land next to the secret, where the oracle looks
         _CUR["home"] = os.environ.get("HOME")
         os.environ["HOME"] = env.parent
+        # FilePath draws the names of its temporary siblings from os.urandom: a per-run counter instead (unique names, same on replay)
+        _CUR["randomBytes"] = filepath.randomBytes
+        serial = [0]
+
+        def counted_bytes(n):
+            serial[0] += 1
+            return (b"%06d" % serial[0]).rjust(n, b"t")[:n] if n >= 6 else b"t" * n
+
+        filepath.randomBytes = counted_bytes
         before = env.snapshot()
+        _AUD["budget"] = {"parent": env.parent, "left": FS_CALL_BUDGET}
         if family == "session":
             cfg = {
                 "family": "session",
@@ -1420,9 +1472,9 @@ def run(sim):
                 _AUD["fault"] = {"cls": cls, "k": k, "errno": getattr(errno, errname), "errname": errname, "rename_errname": rename_errname,
                                  "root": env.root, "seen": 0, "fired": None, "reported": False}
             if sim.draw_bool(OTHER_FS_P, "other_fs"):
-                # one directory of the tree is another file system: renames / links across its boundary fail with EXDEV for the whole session
-                cfg["other_fs"] = sim.draw_choice(OTHER_FS_DIRS, "other_fs_dir")
-                _AUD["xdev"] = {"root": env.root, "dir": os.path.join(env.root, *cfg["other_fs"].split("/")), "fired": 0, "reported": 0}
+                # directories of the tree are other file systems: renames / links across their boundaries fail with EXDEV for the whole session
+                cfg["other_fs"] = sim.draw_choice(OTHER_FS_LAYOUTS, "other_fs_layout")
+                _AUD["xdev"] = {"root": env.root, "dirs": [os.path.join(env.root, *d.split("/")) for d in cfg["other_fs"]], "fired": 0, "reported": 0}
             sim.config = cfg
             sim.probe("root_population:" + env.population)
             _CUR["chunk"] = basic.FileSender.CHUNK_SIZE
@@ -1431,8 +1483,12 @@ def run(sim):
         else:
             run_shell(sim, env)
         _AUD["on"] = False
+        if _AUD["budget"]["left"] < 0:
+            sim.probe("fs_call_budget_exhausted_no_verdict")
+            sim.event("fs-call-budget-exhausted")
         if not os.path.lexists(env.root):
             sim.probe("root_itself_removed_by_session_no_verdict")     # e.g. 'RMD /' on an empty root: the root is not outside the root
+        # (a following 'STOR /' may leave a plain file there, about one run in 16000: still the root's own name, see Scratch.snapshot)
         after = env.snapshot()
         if before != after:
             changed = sorted(k for k in set(before) | set(after) if before.get(k) != after.get(k))
@@ -1488,6 +1544,11 @@ MUTANTS = [
     "F3 ftp.py FTPShell.removeFile: after p.remove(), os.removedirs(p.parent().path) (errors swallowed) -> caught fs-confined:os.rmdir:parent (3450 runs; one-file population, or STOR then DELE on an empty root)",
     "F4 ftp.py FTPShell.openForWriting: on ENOSPC/EROFS/EDQUOT the upload is spooled into filesystemRoot.sibling('spool-'+name) -> caught fs-confined:open:other (2200 runs; needs os_refusal:open)",
     "F5 ftp.py FTPShell.removeDirectory: on EBUSY the directory is renamed to filesystemRoot.sibling('.trash') -> caught fs-confined:os.rename:other (2100 runs; needs os_refusal:rmdir)",
+    # ---- round 5: code that works BESIDE its argument (temporary sibling, parent) after a refused rename.  Needs arguments that name the root itself (root_spelling:* /
+    #      path_argument_names_the_root:* probes) and EXDEV from rename (os_refusal:cross_device, os_refusal_rename_specific_errno:EXDEV)
+    "X1 ftp.py FTPShell.rename: fp.moveTo(tp) instead of os.rename (FilePath's EXDEV fallback copies to destination.temporarySibling(); seed C54-r5a) -> caught "
+    "fs-confined:os.mkdir:other / open:other (14 of the first 8000 runs: RNTO '/', '..', 'a/..' with the source on another file system); missed before (no EXDEV, RNTO rarely the root). "
+    "The same change copies a directory into itself for 'RNFR a' + 'RNTO a/b/n' across a mount: the FS_CALL_BUDGET bound ends such runs",
     # ---- one layer broken, the other still confines: property holds, instrumentation reports it
     "M1 toSegments: '..' at depth 0 appended instead of InvalidPath -> masked (FilePath.child raises InsecurePath -> 550); ftp_layer_passed_unconfined_segments_no_verdict = 41030",
     "M1b toSegments: '..' at depth 0 silently ignored -> equivalent for C54 (stays in the root); no probe",
